@@ -58,7 +58,30 @@ def battery():
     res["scalar-twins"] = ({"x": x}, {"m": x * -0.0, "d": x / -0.0, "a": ndx.atan2(x, -0.0), "p": x + 0.0, "t": x * True, "u": x * 1,
                                       "km": k * -0.0, "kd": k / -0.0, "kp": k * 0.0, "kq": k / 0.0, "k1": k * 1, "kt": k * True, "kf": k * 1.0,
                                       "w": ndx.where(x > 0, x, -0.0), "c": ndx.clip(x, min=-0.0)})
+    # results folded from *data-holding* operands: the same operations are performed in the history on operands of the
+    # same dtype and shape but other values ("eager twins", see `eager_twin_ops`)
+    res["eager-twins"] = ({}, eager_twin_ops(0))
     return res
+
+
+def eager_twin_ops(variant: int):
+    """One family of operations on data-holding operands; `variant` selects the values (same dtypes and shapes)."""
+    names = [["bob", "al", "bob"], ["al", "bob", "cy"], ["x", "x", "bob"]][variant % 3]
+    ints = [[1, 2, 3], [3, 2, 1], [2, 2, 2]][variant % 3]
+    flts = [[0.5, -1.0, 2.0], [2.0, 0.5, -1.0], [1.0, 1.0, 1.0]][variant % 3]
+    s = ndx.asarray(np.array(names)); i = ndx.asarray(np.array(ints, dtype=np.int64)); f = ndx.asarray(np.array(flts, dtype=np.float32))
+    ns = ndx.asarray(np.ma.masked_array(np.array(names), mask=[False, variant % 2 == 1, False]))
+    ni = ndx.asarray(np.ma.masked_array(np.array(ints, dtype=np.int32), mask=[variant % 2 == 0, False, False]))
+    outs = {"se": s == "bob", "sn": s != "al", "si": ndx.additional.isin(s, ["al", "cy"]), "sc": s + "x", "ss": s == s[::-1],
+            "nse": ns == "bob", "nsf": ndx.additional.fill_null(ns, "?"),
+            "ie": i == 2, "im": i * 2, "is": ndx.sum(i), "ic": ndx.cumulative_sum(i), "ii": ndx.additional.isin(i, [2, 5]),
+            "fe": f > 0.75, "fm": f * 2, "fw": ndx.where(f > 0, f, 0.0),
+            "nie": ni == 2, "nif": ndx.additional.fill_null(ni, 9), "nis": ndx.sum(ni)}
+    try:
+        outs["sm"] = ndx.additional.static_map(s, {"bob": 1, "al": 2}, default=0)
+    except Exception:
+        pass
+    return outs
 
 
 def history():
@@ -101,6 +124,12 @@ def history():
                     except Exception:
                         pass
     if cfg["history_len"]:
+        # eager twins of the battery's data-holding computations, on other values (both orders of first use per seed)
+        for variant in ([1, 2] if rng.random() < 0.5 else [2, 1]):
+            try:
+                eager_twin_ops(variant)
+            except Exception:
+                pass
         sweep_args()
         # the "twin" scalars as operands of unrelated arrays, in both orders of first use (per seed)
         twins = [0.0, -0.0, 0, False, 1, 1.0, True, 2, 2.0, -1, -1.0]
